@@ -56,3 +56,4 @@ except ImportError:
 import subprocess
 subprocess.call(["python3", os.path.join(V, "tools", "mkfindings_md.py")])
 subprocess.call(["python3", os.path.join(V, "tools", "mkseeded_md.py")])
+subprocess.call(["python3", os.path.join(V, "tools", "mktheorems_md.py")])
